@@ -316,7 +316,24 @@ func (ce *CEnv) eval(e Expr) Val {
 		idx := ce.eval(x.I)
 		return ce.index(base, idx)
 	case *ESlice:
-		cfail("slice expressions are not supported in contracts; use eqRange/bytesEq")
+		base := ce.eval(x.X)
+		if _, ok := base.T.Underlying().(*types.Slice); !ok {
+			cfail("slice expression on %v", base.T)
+		}
+		lo, hi := m.idx(0), "(slen "+base.S+")"
+		if x.Lo != nil {
+			lo = ce.idxTerm(ce.eval(x.Lo))
+		}
+		if x.Hi != nil {
+			hi = ce.idxTerm(ce.eval(x.Hi))
+		}
+		sub := func(a, b string) string {
+			if m.BV {
+				return "(bvsub " + a + " " + b + ")"
+			}
+			return "(- " + a + " " + b + ")"
+		}
+		return Val{T: base.T, S: fmt.Sprintf("(mk-slice (sbase %s) %s %s %s)", base.S, idxAdd(m, "(soff "+base.S+")", lo), sub(hi, lo), sub("(scap "+base.S+")", lo))}
 	case *ECall:
 		return ce.call(x)
 	}
@@ -769,6 +786,21 @@ func (ce *CEnv) call(x *ECall) Val {
 			}
 			cfail("no invariant %s", sel.Name)
 		}
+		// package-qualified function
+		if id, ok := sel.X.(*EIdent); ok && ce.pkg != nil {
+			if _, isName := ce.names[id.Name]; !isName {
+				if _, isB := ce.bound[id.Name]; !isB {
+					for _, imp := range ce.pkg.Imports() {
+						if imp.Name() == id.Name {
+							if f, ok := imp.Scope().Lookup(sel.Name).(*types.Func); ok {
+								return ce.pureCall(f, nil, x.Args)
+							}
+							cfail("%s.%s is not a function", id.Name, sel.Name)
+						}
+					}
+				}
+			}
+		}
 		// method call on a value: pure method => uninterpreted function of receiver and args
 		return ce.methodCall(sel, x.Args)
 	}
@@ -888,6 +920,15 @@ func (ce *CEnv) call(x *ECall) Val {
 			t = types.NewPointer(t)
 		}
 		return boolVal(fmt.Sprintf("(= (itag %s) %d)", v.S, fv.typeTag(t)))
+	case "concat":
+		a, b := arg(0), arg(1)
+		return Val{T: types.Typ[types.String], S: fv.strConcat(a.S, b.S)}
+	case "str":
+		v := arg(0)
+		if _, ok := v.T.Underlying().(*types.Slice); !ok {
+			cfail("str() of %v", v.T)
+		}
+		return Val{T: types.Typ[types.String], S: fv.bytesToString(ce.st, v.S)}
 	case "popcount8":
 		v := ce.coerce(arg(0), types.Typ[types.Uint8])
 		return Val{T: types.Typ[types.Int], S: fv.popcount8(v.S)}
